@@ -67,6 +67,7 @@ class Engine:
         self.decided_vals = {}
         self.cnt = 0
         self.symbols = {}
+        self.ranges = {}
         self.draws = []
         self.oblig = []
         self.failures = []
@@ -310,19 +311,64 @@ class Engine:
             self.oblig.append((label, "syntactic"))
             return True
         r, m = self._check((z3.Not(phi),), self.prove_timeout)
+        if r == z3.unknown:
+            r, m = self._portfolio(z3.Not(phi))
         if r == z3.unsat:
             self.oblig.append((label, "unsat"))
             return True
         if r == z3.sat and m is not None:
             self.oblig.append((label, "sat"))
-            m2 = self._realize(z3.Not(phi), m)
-            self.failures.append(
-                {"label": label, "witness": self.witness(m2 or m, evals), "info": info, "prefix_len": len(self.prefix), "realized": m2 is not None}
-            )
+            ws = self._witnesses(z3.Not(phi), m, evals)
+            self.failures.append({"label": label, "witness": ws[0], "alts": ws[1:], "info": info, "prefix_len": len(self.prefix)})
             return False
         self.oblig.append((label, "unknown"))
         self.inconclusive.append(label)
         return False
+
+    def _portfolio(self, goal):
+        """Second opinion for `unknown`: the nlsat tactic on the pure-real part (no UFs / ints)."""
+        t = time.time()
+        try:
+            s = z3.Tactic("qfnra-nlsat").solver()
+            s.set("timeout", self.prove_timeout)
+            s.add(*self.solver.assertions())
+            s.add(goal)
+            r = s.check()
+            m = s.model() if r == z3.sat else None
+        except z3.Z3Exception:
+            r, m = z3.unknown, None
+        self.tsolve += time.time() - t
+        self.nq["nlsat:" + str(r)] += 1
+        return r, m
+
+    def _witnesses(self, goal, m, evals, k=5):
+        """Up to k diverse models of PC & goal, each made realistic where possible."""
+        out = []
+        disc = [c for c in self.symbols.values() if c.sort().kind() in (z3.Z3_BOOL_SORT, z3.Z3_INT_SORT)]
+        reals = [c for c in self.symbols.values() if c.sort().kind() == z3.Z3_REAL_SORT]
+        for d in self.draws:
+            for x in np.asarray(d["value"], dtype=object).ravel().tolist():
+                if isinstance(x, (SR, SI)) and z3.is_const(x.e):
+                    (disc if isinstance(x, SI) else reals).append(x.e)
+        blocks = []
+        cur = m
+        for it in range(k):
+            m2 = self._realize(z3.And(goal, *blocks) if blocks else goal, cur)
+            out.append(self.witness(m2 or cur, evals))
+            out[-1]["realized"] = m2 is not None
+            try:
+                if disc:
+                    blocks.append(z3.Or(*[c != cur.eval(c, model_completion=True) for c in disc]))
+                elif reals:
+                    blocks.append(z3.And(*[c != cur.eval(c, model_completion=True) for c in reals[:12]]))
+                else:
+                    break
+            except z3.Z3Exception:
+                break
+            r, cur = self._check((goal, *blocks), self.prove_timeout)
+            if r != z3.sat or cur is None:
+                break
+        return out
 
     def fail(self, label, info=None, evals=None):
         """The current (feasible) path itself is a counterexample candidate."""
@@ -337,8 +383,8 @@ class Engine:
             self.inconclusive.append(label)
             return
         self.oblig.append((label, "sat"))
-        m2 = self._realize(z3.BoolVal(True), m)
-        self.failures.append({"label": label, "witness": self.witness(m2 or m, evals), "info": info, "prefix_len": len(self.prefix), "realized": m2 is not None})
+        ws = self._witnesses(z3.BoolVal(True), m, evals)
+        self.failures.append({"label": label, "witness": ws[0], "alts": ws[1:], "info": info, "prefix_len": len(self.prefix)})
 
     def _realize(self, goal, m):
         """Make a model realistic: uninterpreted exp/log/tanh/pow/sin/cos values are pinned, one
@@ -346,7 +392,7 @@ class Engine:
         model's argument (rel. 1e-9).  Returns a model of PC & goal & pins, or None."""
         apps = [(k, v) for k, v in self.apps.items() if k[0] in ("exp", "log", "tanh", "pow")]
         trigs = list(self.trig.values())
-        if not apps and not trigs:
+        if not apps and not trigs and not any(k[0] == "expm" for k in self.apps):
             return m
         self.solver.push()
         try:
@@ -377,6 +423,9 @@ class Engine:
                 todo.append((k[0], t, args))
             for c_, s_, a_ in trigs:
                 todo.append(("trig", (c_.e, s_.e), (a_,)))
+            for k, v in self.apps.items():
+                if k[0] == "expm":
+                    todo.append(("expm", v[0], v[1]))
             for kind, t, args in todo:
                 vs = [val(a) for a in args]
                 if any(v is None for v in vs):
@@ -396,11 +445,18 @@ class Engine:
                             continue
                         true = fv[0] ** fv[1]
                     else:
-                        true = None
+                        true = 0.0
                 except (OverflowError, ValueError):
                     continue
                 cons = [a == z3.RealVal(v) for a, v in zip(args, vs)]
-                if kind == "trig":
+                if kind == "expm":
+                    from scipy.linalg import expm as _expm
+
+                    tm = _expm(np.array(fv, dtype=float).reshape(3, 3))
+                    for i in range(3):
+                        for j in range(3):
+                            cons.append(box(lift(t[i, j]), float(tm[i, j])))
+                elif kind == "trig":
                     bc, bs = box(t[0], math.cos(fv[0])), box(t[1], math.sin(fv[0]))
                     cons += [bc, bs]
                 else:
@@ -437,7 +493,7 @@ class Engine:
         dr = []
         for d in self.draws:
             dr.append({"kind": d["kind"], "value": _model_struct(m, d["value"]), "site": d.get("site")})
-        out = {"symbols": w, "draws": dr}
+        out = {"symbols": w, "draws": dr, "ranges": dict(self.ranges)}
         for k, (c_, s_, a_) in self.trig.items():
             out.setdefault("trig", []).append(
                 {"arg": _model_value(m, a_), "cos": _model_value(m, c_.e), "sin": _model_value(m, s_.e)}
@@ -1226,6 +1282,7 @@ def symarr(name, shape, declare=True):
         c = z3.Real(n)
         if declare:
             E().symbols[n] = c
+            E().ranges[n] = ["R", None, None]
         a[idx] = SR(c)
     return a
 
@@ -1312,7 +1369,7 @@ class Result:
 
 
 _HARNESS = {}
-_TRACE_PREFIX = "/repo/src/"
+_TRACE_PREFIX = (os.environ.get("QVERIF_SRC") or "/repo/src").rstrip("/") + "/"
 _seen_code = set()
 
 
@@ -1459,6 +1516,7 @@ class Sym:
     def real(self, name, lo=None, hi=None, lo_strict=False, hi_strict=False):
         c = z3.Real(name)
         E().symbols[name] = c
+        E().ranges[name] = ["R", None if lo is None or is_sym(lo) else float(lo), None if hi is None or is_sym(hi) else float(hi)]
         if lo is not None:
             E().assume(c > lift(lo) if lo_strict else c >= lift(lo))
         if hi is not None:
@@ -1471,6 +1529,7 @@ class Sym:
     def int(self, name, lo=None, hi=None):
         c = z3.Int(name)
         E().symbols[name] = c
+        E().ranges[name] = ["I", lo, hi]
         if lo is not None:
             E().assume(c >= lo)
         if hi is not None:
@@ -1480,6 +1539,7 @@ class Sym:
     def bool(self, name):
         c = z3.Bool(name)
         E().symbols[name] = c
+        E().ranges[name] = ["B", None, None]
         return SB(c)
 
     def choice(self, name, n):
